@@ -29,6 +29,12 @@ package c15
 //                             the key directory and the authority's bucket compared before and after.
 //   failure bursts            dry runs whose random source fails 1, 2, 3 times or always, with 0..3 commit retries, on
 //                             back ends that call errors retriable or not; dry runs whose authority or signer fails.
+//   stored-state forms        the key directory and the authority's bucket laid out in the forms the readers accept besides
+//                             the one the writers produce (PKCS #1 key files, PEM details, modes, PEM-armoured certificate
+//                             objects, re-formatted manifest), in forms they refuse, with parts missing, behind symbolic
+//                             links and with stray files; dry / measurement-only runs at library level (file key manager +
+//                             bucket authority, storage behind the recording double) and through the shipped command line,
+//                             the whole directory compared entry by entry (aud_state.go).
 
 import (
 	"crypto/sha256"
@@ -58,6 +64,8 @@ type aud struct {
 	// judged runs per family (floors)
 	nSeqKept, nSeqFresh, nConc, nOpts, nFile, nCLI, nNonprod, nBurst int
 	printedCompared                                                   int
+	// stored-state forms (aud_state.go)
+	nState, nStateCompleted, nStateLegacyKeyCompleted, nStateArmouredCert int
 }
 
 func runAudit(c *core.Ctx, a *authority.Assembly) {
@@ -77,6 +85,7 @@ func runAudit(c *core.Ctx, a *authority.Assembly) {
 	each(c.N(48, 384), au.cliCase)
 	each(c.N(24, 160), au.nonprodCase)
 	each(c.N(48, 320), au.burstCase)
+	each(c.N(48, 288), au.stateCase)
 	c.Count("audit/kept-request-sequence-runs-judged", au.nSeqKept)
 	c.Count("audit/fresh-value-sequence-runs-judged", au.nSeqFresh)
 	c.Count("audit/concurrent-runs-judged", au.nConc)
@@ -86,6 +95,13 @@ func runAudit(c *core.Ctx, a *authority.Assembly) {
 	c.Count("audit/nonprod-command-line-runs-judged", au.nNonprod)
 	c.Count("audit/failure-burst-runs-judged", au.nBurst)
 	c.Count("audit/measurement-only-outputs-compared-with-real-run", au.printedCompared)
+	c.Count("audit/stored-state-runs-judged", au.nState)
+	c.Count("audit/stored-state-runs-completed", au.nStateCompleted)
+	c.Count("audit/stored-state-command-line-runs-completed-with-a-pkcs1-key-file", au.nStateLegacyKeyCompleted)
+	c.Count("audit/stored-state-command-line-runs-with-pem-armoured-primary-certificate", au.nStateArmouredCert)
+	c.Floor("audit-stored-state-runs-judged", au.nState > 0 && au.nStateCompleted > 0)
+	c.Floor("audit-stored-state-legacy-key-file-runs-completed", au.nStateLegacyKeyCompleted > 0)
+	c.Floor("audit-stored-state-armoured-certificate-runs-judged", au.nStateArmouredCert > 0)
 	c.Floor("audit-kept-request-sequences-judged", au.nSeqKept > 0)
 	c.Floor("audit-fresh-value-sequences-judged", au.nSeqFresh > 0)
 	c.Floor("audit-concurrent-runs-judged", au.nConc > 0)
